@@ -214,6 +214,8 @@ impl Mon {
         }
         if self.en("C16") {
             self.c16_ix(w, v, &info);
+        } else if self.en("C07") {
+            self.disabled_survives_transfer(&info);
         }
         if self.en("C17") {
             self.c17(w, v, &info);
@@ -848,6 +850,7 @@ impl Mon {
                 }
             }
         }
+        self.disabled_survives_transfer(info);
         if matches!(info.kind, Kind::TransferAccount | Kind::TransferAccountPda) && info.accts.len() >= 2 {
             // old = first, new = second (Anchor account order)
             let (ok, op, oq) = &info.accts[0];
@@ -866,6 +869,27 @@ impl Mon {
             }
         }
         let _ = w;
+    }
+    /// Moving an account does not rehabilitate it: an account disabled by a bankruptcy stays disabled
+    /// at its new address (C07: the bankrupt account is disabled; C16: a disabled account can no
+    /// longer act).
+    fn disabled_survives_transfer(&mut self, info: &IxInfo) {
+        if !matches!(info.kind, Kind::TransferAccount | Kind::TransferAccountPda) || info.accts.len() < 2 {
+            return;
+        }
+        let (ok, op, _) = &info.accts[0];
+        let (nk, _, nq) = &info.accts[1];
+        if let (Some(op), Some(nq)) = (op, nq) {
+            if op.account_flags & ACCOUNT_DISABLED != 0 && op.migrated_to == Pubkey::default() {
+                self.r.eval();
+                self.r.count("C16.transfers_of_disabled_accounts");
+                if nq.account_flags & ACCOUNT_DISABLED == 0 {
+                    for prop in ["C07", "C16"] {
+                        self.r.violate(prop, &format!("{}/{}/disabled-account-re-enabled-by-moving-it", prop, info.kind.name()), format!("old {} (flags {:#b}) -> new {} (flags {:#b})", ok, op.account_flags, nk, nq.account_flags));
+                    }
+                }
+            }
+        }
     }
     fn c16_structure(&mut self, ak: &Pubkey, a: &MarginfiAccount, ctx: Option<(&IxView, &IxInfo)>) {
         self.r.eval();
